@@ -1438,7 +1438,7 @@ Definition e_mat : list (list Z) :=
 Definition e_inp : input :=
   mkInput [] [mkIStop [(-1)%Z] 0%Z [] None 10%Z [] None 0%Z 0%Z; mkIStop [1%Z] 0%Z [] None 10%Z [] None 0%Z 0%Z;
               mkIStop [0%Z] 0%Z [] None 7%Z [] None 0%Z 0%Z]
-          [mkIVehicle (Some [1%Z]) [0%Z] 0%Z None None None None None [] 0%Z true true 0%Z 0%Z]
+          [mkIVehicle (Some [1%Z]) [0%Z] 0%Z None None None None None [] 0%Z true true 0%Z 0%Z 1%Z 1%Z]
           [mkIUnit [0] []; mkIUnit [1] []; mkIUnit [2] []]
           e_mat e_mat 1 w_opts [].
 Definition e_gi : ginput := mkGInput e_inp [[1; 0]] [[]].
@@ -1456,7 +1456,7 @@ Definition e_s3 : state := Eval vm_compute in fst (gop_step e_gi e_s2 (GUnplanGr
 
 Lemma e_wf : wf_input e_inp.
 Proof.
-  split; [|split; [|split; [|exact (Forall_nil _)]]].
+  split; [|split; [|split; [|split; [exact (Forall_nil _)|mult_wf]]]].
   - vm_compute. repeat (constructor; [simpl; lia|]). constructor.
   - intros x. vm_compute. lia.
   - intros u Hu. vm_compute in Hu. destruct Hu as [<-|[<-|[<-|[]]]]; discriminate.
